@@ -147,6 +147,22 @@ CHECKS["C16"] = ("model_checking",
     "at Hs-quantiles 0.5...0.9999, transformed IFORM points against exact cdf values within the DKW radius, Reproducible, SeedMatters.",
     "TLC; exact conditional law from the base model's conditional steepness distribution; central differences; Simpson rule; hook event cond_sample_support; known finding: tail truncation at extreme conditioning values",
     "DESIGN.md §4 C16")
+CHECKS["C02"] = ("model_checking",
+    "TLC model checks the highest-density selection (HDC.tla: stable descending order with reverse-index ties, largest prefix with cumulative sum <= limit, warn path) for all small cell arrays and limits; the enumerated (P, L) domain is executed on the real cumsum_biggest_until; real contours are judged by TLC (Trace_C02.tla) against independently recomputed cell probabilities",
+    "The selection with ties, the <=, the warn path and the threshold are finite case analysis: all P over 5 cells x all limits (quick; 7 cells / 2x4 grids thorough) are model checked (Strict, Close, NaiveEq must "
+    "violate) and 10 496 (81 089) of these cases are run on the real static method as dyadic floats with limits exactly on / just above / just below attainable sums. 61 + 35 near-limit contours "
+    "(962 + 147) over the shipped families and all conditional_on structures: Content, Tight, Densest, Threshold, FmIsDensity, Sandwich, WarnIff (alpha chosen at 1 - T(1 +- eps), eps 1e-12..1e-3), "
+    "LimitIsOneMinusAlpha, CellProbIsCdfDifference (explicit loops over the model's cdfs, a different code path).",
+    "TLC; cell probabilities as two-limb naturals at scale 1e18 (sums saturate at 2e18); float summation slack as derived in Trace_C02.tla; grids whose densest cell alone exceeds 1-alpha raise IndexError and are skipped (counted)",
+    "DESIGN.md §4 C02")
+CHECKS["C15"] = ("model_checking",
+    "TLC model checks boundary extraction (region minus erosion = cells with a neighbour outside the region or the grid, 3^n-1 neighbourhood, labelling) for all masks on small 2-D/3-D grids and the 2-nearest-neighbour line sorter on lattice point sets (LineSort.tla); real contours and sorter calls are judged by TLC (Trace_C15.tla)",
+    "Boundary = definition vs erosion, components and the DFS line sorter are finite combinatorial objects: all masks on 3x3, 3x4, 2x2x2 (4x4, 3x2x2 thorough) and all 6-point subsets of a 4x4 lattice "
+    "(7 points / 5x5 thorough) are explored; Cross (4-neighbourhood) and Continue = FALSE (the repaired sorter defect) must violate. 63 (616) real contours incl. anisotropic deltas, multi-set "
+    "results and 1-2 cell regions: CoordsAreCellCentres, CoordsAreBoundary (Boundary computed in TLA+ from the recorded region mask), EachOnce, SetsDoNotMixRegions, OneSetPerBoundaryPiece, "
+    "SingleIs2DArray, OrderIsLineSorter; 95 (815) sorter calls: IsPermutation (bag equality), SorterOutputShape, InputNotMutated.",
+    "TLC; the region mask is captured by wrapping the public static method cumsum_biggest_until; FastIsDef model-checks that the large-grid operators of the trace equal the definitions",
+    "DESIGN.md §4 C15")
 
 NOT_YET = {}
 
